@@ -314,6 +314,18 @@ example : (lex Cfg.fixed (lit "abc\n  <%include\n bogus='1'/>")).outcome = .ok
     ∧ ((lex Cfg.fixed (lit "abc\n  <%include\n bogus='1'/>")).toks.map fun t => nodeFaultPos t .invalidAttribute)
         = [(1, 1), (2, 3)] := by decide +kernel
 
+/-- **every raise site of a compile-time exception in lexer.py, parsetree.py, codegen.py, pyparser.py, ast.py**
+    (regenerated table `Generated.ErrPos.raiseSites`) **is a fault class** the generator plants (or is listed as
+    outside, with the reason): a new or renamed raise site breaks this obligation by name. -/
+theorem every_raise_site_is_a_fault_class :
+    Generated.ErrPos.raiseSites.all (fun s => (siteClass s).isSome) = true := by decide +kernel
+
+/-- **every raise site takes its coordinates from the node its own function is about** – `self.exception_kwargs`,
+    the `exception_kwargs` of one of the function's own parameters, or explicit values – never from a variable of an
+    enclosing function (which would be the coordinates of some *other* construct, e.g. of the enclosing tag). -/
+theorem raise_sites_report_their_own_node :
+    Generated.ErrPos.raiseSites.all siteUsesOwnNode = true := by decide +kernel
+
 /-! ## the construction paths -/
 
 /-- **the exception is a function of (decoded text, file name)**: the construction paths, whatever URI and
